@@ -71,8 +71,10 @@ def check_regex(chk: Check) -> None:
         doc = sc["doc"]
         eol = "\r\n" if sc["eol"] == "crlf" else "\n"
         lines = [(f'key{i} = "hello world"  # line {i}' if ln["m"] else f"other{i} = {i}") for i, ln in enumerate(doc, 1)]
-        text = eol.join(lines) + (eol if sc["finalnl"] else "")
         n += 1
+        if n % 3 == 0:   # every third document starts with a byte order mark: part of line 1, not a target
+            lines[0] = "\ufeff" + lines[0]
+        text = eol.join(lines) + (eol if sc["finalnl"] else "")
         root = base / f"r{n}"
         root.mkdir()
         path = root / "doc.txt"
